@@ -43,11 +43,22 @@ def _arg(p, k):
     return a[()] if is_sym(a) else z3.RealVal(str(Fraction(float(a))))
 
 
-def _decide(res, case_id, s, obligations, log, replay=None):
+def _decide(res, case_id, s, obligations, log, replay=None, prefer=()):
     for name, viol in obligations:
         tt = time.time()
         s.push(); s.add(viol); r = str(s.check())
         model = s.model() if r == "sat" else None
+        if r == "sat" and prefer:
+            # prefer a witness without rejected attempts: step sizes after a rejection go through the controller's power
+            # function, which the encoding abstracts, so such witnesses often do not replay
+            for pref in (prefer if isinstance(prefer[0], (list, tuple)) else [prefer]):
+                s.push(); s.add(*pref)
+                ok_ = str(s.check()) == "sat"
+                if ok_:
+                    model = s.model()
+                s.pop()
+                if ok_:
+                    break
         s.pop()
         ob = {"id": f"C05/{case_id}/{name}", "queries": 1, "solver_s": round(time.time() - tt, 3), "nontrivial": True}
         if r == "unsat":
@@ -262,13 +273,24 @@ def _chain(case_id, res, seed, replay_dir, log):
                 ts_, dt_, xs_, ns_ = [_arg(ev[j], k) for k in range(4)]
                 v_resume.append(z3.And(both, z3.Or(ts_ != to_t, xs_ != to_x)))
     res["vacuity"]["chained_interpolation_pairs_reachable"] = reach
-    obligations = [("a second checkpoint inside the same step interpolates between the previous checkpoint state and the step end",
+    # a step end before, within eps of (either side), or beyond the checkpoint: the checkpoint is closed by exactly one
+    # interpolation event (beyond -> interpolate_fwd, within eps -> interpolate_fwd_at_t1, which re-bases the smoother)
+    v_cnt = []
+    for k in range(2):
+        here = [i for i in range(n) if ev[i]["tag"] in ("interp", "interp_at") and (ev[i]["scan"][0] if ev[i]["scan"] else 0) == k]
+        cnt = z3.Sum([z3.If(g[i], 1, 0) for i in here]) if here else z3.IntVal(0)
+        v_cnt.append(cnt != 1)
+    obligations = [("every checkpoint is closed by exactly one interpolation event (also when a step ends within eps of it)",
+                    z3.Or(v_cnt)),
+                   ("a second checkpoint inside the same step interpolates between the previous checkpoint state and the step end",
                     z3.Or(v_chain) if v_chain else z3.BoolVal(False)),
                    ("stepping resumes from the step end, not from the checkpoint", z3.Or(v_resume) if v_resume else z3.BoolVal(False))]
     res["states"] = n; res["transitions"] = len(v_chain) + len(v_resume)
     if reach == 0:
         res["status"] = "inconclusive"; res["notes"].append("no chained interpolation pair is reachable within the bounds")
-    _decide(res, case_id, s, obligations, log, replay=lambda m, name: _replay_chain(case_id, m, run, apps, name, replay_dir))
+    _decide(res, case_id, s, obligations, log, replay=lambda m, name: _replay_chain(case_id, m, run, apps, name, replay_dir),
+            prefer=[[a >= 1 for a in apps] + [run["T"][0] + run["dt0"] + run["eps"] >= run["T"][1], run["T"][0] + run["dt0"] < run["T"][1]],
+                    [a >= 1 for a in apps]])
 
 
 def _replay_chain(case_id, model, run, apps, name, replay_dir):
@@ -287,6 +309,10 @@ def _replay_chain(case_id, model, run, apps, name, replay_dir):
     log_, ts, ns = C06.concrete_run(f"save_at/{ctrl}/{clip}/x", params, table)
     info["event_log"] = log_[:14]
     bad = False
+    if name.startswith("every checkpoint is closed"):
+        n_int = sum(1 for e in log_ if e["tag"] in ("interp", "interp_at"))
+        bad = n_int != len(T) - 1
+        info["interpolation_events"] = n_int
     evs = [e for e in log_ if e["tag"] in ("step", "interp", "interp_at")]
     for a, b in zip(evs, evs[1:]):
         if a["tag"] == "interp" and b["tag"] in ("interp", "interp_at"):
@@ -328,6 +354,8 @@ def replay(path):
         log_, ts, ns = C06.concrete_run(f"save_at/{ctrl}/{clip}/x", data["params"], table)
         evs = [e for e in log_ if e["tag"] in ("step", "interp", "interp_at")]
         bad = False
+        if str(data.get("obligation_name", "")).startswith("every checkpoint is closed"):
+            bad = sum(1 for e in log_ if e["tag"] in ("interp", "interp_at")) != len(data["params"]["T"]) - 1
         for a, b in zip(evs, evs[1:]):
             if a["tag"] == "interp" and b["tag"] in ("interp", "interp_at") and (abs(b["a"] - a["t"]) > 1e-12 or abs(b["b"] - a["b"]) > 1e-12):
                 bad = True
